@@ -146,7 +146,7 @@ def mutate_copy(cc):
     return n
 
 
-def observe(c, prev_copy):
+def observe(c, prev_copy, copies=True):
     """Observations after a successful call."""
     post = project(c)
     o = {'post': post}
@@ -157,6 +157,8 @@ def observe(c, prev_copy):
             o[key] = []
             o[key + 'x'] = type(e).__name__
     # copy: equality, then independence
+    if not copies:
+        return o, None
     blocks_ok = all(x in post['g'] for b in post['b'].values() for x in b['o'])
     o['copy_judged'] = bool(blocks_ok)
     new_copy = None
@@ -223,7 +225,14 @@ def run_history(actions, prop='C02', init=None, chooser=None, n=0):
                 step[k[1:]] = act.pop(k)
         if act['a'] == 'connect' and 'other' not in act:
             act['other'] = LIB[act['lib'] - 1]
-        obs, new_copy = observe(c, prev_copy)
+        if act['a'] == 'connect' and act.get('name'):
+            # block re-extraction is judged only for repeat-free connector lists (DESIGN 5/C10)
+            if len(set(act['tc'])) == len(act['tc']) and len(set(act['oc'])) == len(act['oc']):
+                try:
+                    step['blk'] = project(c.get_block(act['name']).into_circuit(), users=True)
+                except Exception as e:
+                    step['blkx'] = type(e).__name__
+        obs, new_copy = observe(c, prev_copy, copies=(prop == 'C02'))
         step.update(obs)
         prev_copy = (new_copy, obs['post']) if new_copy is not None else None
         steps.append(step)
